@@ -3,7 +3,7 @@
    test (parsed add-files line or package-owned entry, and the state of the source object as
    the harness measured it with its own lstat/readlink/llistxattr/lgetxattr/read), and what
    an archive/tar reader found in the produced tarball. *)
-From LC Require Import Lib.Bytes Lib.Lex Lib.Fields Gen.Consts Model.TarMeta Cases.Verdict.
+From LC Require Import Lib.Bytes Lib.Lex Lib.Fields Gen.Consts Model.TarMeta Model.OutFile Cases.Verdict.
 From Coq Require Import ZArith.
 Open Scope N_scope.
 
@@ -15,6 +15,21 @@ Inductive modspec := MNone | MOctal (digits : bytes) | MSym (cs : list (N * bool
 
 Record mcase := MkM { mc_member : member; mc_mod : modspec }.
 
+(* one further run of the same command line on the same build root whose -o path was NOT fresh:
+   it held a file already (random bytes, zeros, the stage of an earlier run on a bigger tree or
+   through another compressor; shorter than, as long as, longer than the output to come).
+   What a reader of the output file sees afterwards, in full: *)
+Record outobs := MkOut {
+  oo_method : N;          (* 0 none, 1 gzip, 2 bzip2, 3 xz *)
+  oo_prior : option N;    (* length of the file the path held before the run; None = no such file *)
+  oo_fresh : N;           (* length of the output of the same run written to a path that did not exist *)
+  oo_len : N;             (* length of the file after the run *)
+  oo_whole : bool;        (* the whole file is one archive: uncompressed -- an archive/tar reader reaches
+                             the end-of-archive marker and only zero bytes follow it; compressed -- the
+                             decompressor (Go reader and the program's -t) consumes the file to its last
+                             byte without complaint (no trailing garbage) *)
+  oo_same : bool }.       (* read that way, it is the archive the fresh path got *)
+
 Record case := MkCase {
   c_members : list mcase;        (* in name order *)
   c_t0 : Z; c_t1 : Z;            (* wall clock (seconds) before and after the run *)
@@ -23,9 +38,14 @@ Record case := MkCase {
   c_ext : list bool;             (* referee, per member written (empty when not run): does the
                                     object GNU tar extracts as root (-p --xattrs --numeric-owner)
                                     carry exactly what the header read back says? *)
+  c_out : list outobs;           (* runs whose -o path existed beforehand *)
   c_obs : runres }.              (* exit status <> 0: RFailed; else the headers read back *)
 
-Definition obs := (runres * list (N * bool) * list bool)%type.
+Definition obs := (runres * list (N * bool) * list bool * list outobs)%type.
+Definition o_run (o : obs) : runres := fst (fst (fst o)).
+Definition o_comp (o : obs) : list (N * bool) := snd (fst (fst o)).
+Definition o_ext (o : obs) : list bool := snd (fst o).
+Definition o_out (o : obs) : list outobs := snd o.
 
 (* ---------------------------------------------------------------- equality of observations *)
 Definition xattr_beq (a b : xattr) : bool := beq (fst a) (fst b) && beq (snd a) (snd b).
@@ -43,15 +63,29 @@ Definition runres_beq (a b : runres) : bool :=
   end.
 Definition comp_beq (a b : list (N * bool)) : bool :=
   list_beq (fun x y => (fst x =? fst y) && Bool.eqb (snd x) (snd y)) a b.
+Definition optN_beq := opt_beq N.eqb.
+(* the part of an [outobs] that is input (what was arranged and the reference length) *)
+Definition out_key_beq (a b : outobs) : bool :=
+  (oo_method a =? oo_method b) && optN_beq (oo_prior a) (oo_prior b) && (oo_fresh a =? oo_fresh b).
+Definition outobs_beq (a b : outobs) : bool :=
+  out_key_beq a b && (oo_len a =? oo_len b) && Bool.eqb (oo_whole a) (oo_whole b)
+  && Bool.eqb (oo_same a) (oo_same b).
 Definition obs_beq (a b : obs) : bool :=
-  runres_beq (fst (fst a)) (fst (fst b)) && comp_beq (snd (fst a)) (snd (fst b))
-  && list_beq Bool.eqb (snd a) (snd b).
+  runres_beq (o_run a) (o_run b) && comp_beq (o_comp a) (o_comp b)
+  && list_beq Bool.eqb (o_ext a) (o_ext b) && list_beq outobs_beq (o_out a) (o_out b).
 
 (* ---------------------------------------------------------------- model *)
 (* compressors and GNU tar are outside the model: their laws (decompress . compress = id,
    extraction reproduces the header) make every such flag true *)
+(* the -o path (Model/OutFile.v): os.Create, then [oo_fresh] bytes are written from offset 0.
+   The file is as long as the model of the open-and-write says; a reader consumes it whole and
+   finds the archive exactly when nothing but the written bytes is in it *)
+Definition model_out (o : outobs) : outobs :=
+  let n := out_len (oo_prior o) (oo_fresh o) in
+  MkOut (oo_method o) (oo_prior o) (oo_fresh o) n (n =? oo_fresh o) (n =? oo_fresh o).
 Definition model (c : case) : obs :=
-  (run (map mc_member (c_members c)), map (fun x => (fst x, true)) (c_comp c), map (fun _ => true) (c_ext c)).
+  (run (map mc_member (c_members c)), map (fun x => (fst x, true)) (c_comp c), map (fun _ => true) (c_ext c),
+   map model_out (c_out c)).
 
 (* ---------------------------------------------------------------- reference semantics used by spec *)
 (* chmod(1), GNU reading (DESIGN Appendix D) *)
@@ -235,15 +269,24 @@ Definition acceptable (m : mcase) : bool :=
      | SLstatErr => false
      end.
 
+(* "a generated tarball": the file named by -o IS the archive -- all of it and nothing else,
+   whatever the path held before the run.  Uncompressed output has the length the archive has
+   (the tar format allows zero padding after the end-of-archive marker, stagemaker writes none:
+   the reference is the same run to a fresh path); compressed output is consumed by its
+   decompressor to the last byte and gives the same archive *)
+Definition out_ok (o : outobs) : bool :=
+  oo_whole o && oo_same o && (if oo_method o =? 0 then oo_len o =? oo_fresh o else true).
+
 Definition spec (c : case) (o : obs) : bool :=
-  match fst (fst o) with
+  match o_run o with
   | ROutput hs => members_ok c [] (c_members c) hs
   | RFailed => negb (forallb acceptable (c_members c))
   | _ => false
   end
-  && forallb (fun x : N * bool => snd x) (snd (fst o))
-  && list_beq N.eqb (map fst (snd (fst o))) (map fst (c_comp c))
-  && forallb (fun b : bool => b) (snd o) && (length (snd o) =? length (c_ext c))%nat.
+  && forallb (fun x : N * bool => snd x) (o_comp o)
+  && list_beq N.eqb (map fst (o_comp o)) (map fst (c_comp c))
+  && forallb (fun b : bool => b) (o_ext o) && (length (o_ext o) =? length (c_ext c))%nat
+  && forallb out_ok (o_out o) && list_beq out_key_beq (o_out o) (c_out c).
 
 (* ---------------------------------------------------------------- domain *)
 Definition no_nul (b : bytes) : bool := nosepb NUL b.
@@ -341,7 +384,8 @@ Definition wf (c : case) : bool :=
   && Z.leb (c_t0 c) (c_t1 c)
   && forallb (fun m => Z.leb (c_t0 c) (m_now (mc_member m)) && Z.leb (m_now (mc_member m)) (c_t1 c)) (c_members c)
   && forallb (fun x => (1 <=? fst x) && (fst x <=? 3)) (c_comp c)
-  && pairwise inode_consistent (c_members c).
+  && pairwise inode_consistent (c_members c)
+  && forallb (fun o => oo_method o <=? 3) (c_out c).
 
 (* known finding 1: two members are names of one inode (so the later one is written as a hard
    link) and one of them carries mod=, uid= or gid=.  One inode has one mode and one owner: the
@@ -359,7 +403,8 @@ Definition no_link_override (a b : mcase) : bool :=
 Definition kf (c : case) : N := if pairwise no_link_override (c_members c) then 0%N else 1%N.
 
 Definition verdict (c : case) : N :=
-  mkverdict (wf c) (obs_beq (model c) (c_obs c, c_comp c, c_ext c)) (spec c (c_obs c, c_comp c, c_ext c)) (kf c).
+  mkverdict (wf c) (obs_beq (model c) (c_obs c, c_comp c, c_ext c, c_out c))
+            (spec c (c_obs c, c_comp c, c_ext c, c_out c)) (kf c).
 
 (* ---------------------------------------------------------------- diagnosis (replay files, debugging) *)
 (* per member: name, the header fields (1 name 2 type 3 mode 4 uid 5 gid 6 mtime 7 size 8 link
@@ -390,10 +435,14 @@ Fixpoint diag_members (c : case) (prev : list (mcase * header)) (ms : list mcase
     :: diag_members c (match oh with Some h => prev ++ [(m, h)] | None => prev end) mr (tl mo) (tl oo)
   end.
 Definition diag (c : case) :=
-  let mo := match fst (fst (model c)) with ROutput l => l | _ => [] end in
+  let mo := match o_run (model c) with ROutput l => l | _ => [] end in
   let oo := match c_obs c with ROutput l => l | _ => [] end in
-  (match fst (fst (model c)) with ROutput _ => 1 | RFailed => 2 | RTruncated => 3 | RDiverged => 4 end,
+  (match o_run (model c) with ROutput _ => 1 | RFailed => 2 | RTruncated => 3 | RDiverged => 4 end,
    match c_obs c with ROutput _ => 1 | RFailed => 2 | RTruncated => 3 | RDiverged => 4 end,
    forallb acceptable (c_members c),
-   diag_members c [] (c_members c) mo oo).
+   diag_members c [] (c_members c) mo oo,
+   (* runs to an existing -o path: (method, prior length, fresh length, observed length,
+      length the model gives, whole, same, satisfies the property) *)
+   map (fun o => (oo_method o, oo_prior o, oo_fresh o, oo_len o, oo_len (model_out o),
+                  oo_whole o, oo_same o, out_ok o)) (c_out c)).
 End C07.
